@@ -24,6 +24,7 @@ CONSTANTS
  DevNoFlushOnAck = FALSE
  DevTolerateLostIdx = FALSE
  DevRestoreCountsOrphan = FALSE
+ DevReadFloorSegment = FALSE
 INIT Init
 NEXT Next
 VIEW View
